@@ -68,7 +68,7 @@ def base_trace(case, emb):
     tr["sel"] = _sel(case)
     tr["emb"] = case.get("emb")
     tr["nonull"] = int(emb.nonull) if emb is not None else 0
-    tr["cfg"] = {k: case.get(k) for k in ("level", "kenc", "kcont", "vcont", "mcont", "T", "skipna", "window", "minp", "layout")}
+    tr["cfg"] = {k: case.get(k) for k in ("level", "kenc", "kcont", "vcont", "mcont", "T", "skipna", "window", "minp", "layout", "nanull")}
     tr["mask"] = case.get("mask", {"k": "none"})
     return tr
 
@@ -299,7 +299,7 @@ def run_select(case):
     if case.get("vcont") and ncols == 1:
         values = api.wrap_container(cols["c0"], case["vcont"], name="c0", index=index)
     keys = pd.Series(keyarr, index=index) if case.get("kcont", "series") == "series" else keyarr
-    tr = {"kind": case["kind"], "n": case["n"], "cfg": {k: case.get(k) for k in ("kenc", "ncols", "vdtype", "T", "kcont")}}
+    tr = {"kind": case["kind"], "n": case["n"], "cfg": {k: case.get(k) for k in ("kenc", "ncols", "vdtype", "T", "kcont", "vcont")}}
     if rle:
         tr["runs"] = case["runs"]
     else:
